@@ -9,8 +9,10 @@ net/http/internal): an empty chunk-size line is an error, and chunk overhead is 
 (`excess`, error above 16 KiB).  `parseHexUintLenient` is the function as it stands in the
 unpatched fork (empty ⇒ 0).
 
-Arithmetic: `excess` is an `int64` in Go; here an `Int`.  The two agree as long as a single
-chunk is shorter than 2^62 bytes (then `2 * int64(n)` does not wrap).
+Arithmetic: `excess` is an `int64` in Go and `cr.excess -= 16 + (2 * int64(cr.n))` wraps for
+chunk sizes of 2^62 and more (found by the chunk lane: size `7ffff9ffffffffff` makes the counter
+jump above the limit and the reader fails with "too much non-data" before delivering a byte of
+that chunk).  `wrap64` reproduces the two's-complement result.
 
 `B` is the size of the connection's `bufio.Reader` (`Transport.ReadBufferSize`, default 4096):
 `ReadSlice('\n')` fails with `ErrBufferFull` when the size line (LF included) is longer.
@@ -40,6 +42,9 @@ def parseHexUint (v : Bytes) : Option Nat :=
 /-- `parseHexUint` of the unpatched fork: the empty string parses as 0. -/
 def parseHexUintLenient (v : Bytes) : Option Nat :=
   if v.length > 16 then none else parseHexAcc 0 v
+
+/-- Two's-complement `int64` value of an integer. -/
+def wrap64 (z : Int) : Int := (z + 2 ^ 63) % 2 ^ 64 - 2 ^ 63
 
 def maxLineLength : Nat := 4096
 
@@ -72,7 +77,7 @@ def chunkLoop : Nat → Nat → Int → Bytes → Bytes × Option Bytes
       match parseHexUint (chunkSizeField line) with
       | none => ([], none)
       | some n =>
-        let ex1 : Int := max (ex + (line.length : Int) + 2 - (16 + 2 * (n : Int))) 0
+        let ex1 : Int := max (wrap64 (ex + (line.length : Int) + 2 - (16 + 2 * (n : Int)))) 0
         if n = 0 then ([], some r)                   -- io.EOF wins over the excess error
         else if ex1 > 16 * 1024 then ([], none)      -- too much non-data
         else if r.length < n then (r, none)          -- stream ends inside the chunk
